@@ -220,9 +220,10 @@ Fixpoint emit_runs (legacy : bool) (text : list N) (levels : list nat) (runs : l
     sub <- t_subrange 898 e text (fst r) (snd r) ;;
     out <- (if is_rtl l
             then cs <- t_chars_rev e sub ;;
-                 Ok (match e with U8 => cs | U16 => flat_map encode_utf16 cs end)
+                 Ok (match e with U8 => cs | U16 => flat_map encode_utf16 cs | U32 => cs end)
             else Ok (match e with
                      | U8 => sub
+                     | U32 => sub
                      | U16 => if legacy then sub                       (* raw copy: D8 *)
                               else flat_map encode_utf16 (t_chars e sub) (* repaired *)
                      end)) ;;
